@@ -94,7 +94,7 @@ def main():
                     dest_dir = rel0
                 hint = None if dest_dir else re.search(r"cp\s+\S*" + re.escape(fn) + r"\s+(\S+)", run_txt)
                 if hint:
-                    dest_dir = hint.group(1).replace("/tmp/seed/%s/" % pid, "").strip("/")
+                    dest_dir = re.sub(r"/tmp/seed\d*/%s/" % pid, "", hint.group(1)).strip("/")
                     if dest_dir.endswith(".go"):
                         dest_dir = os.path.dirname(dest_dir)
                 if dest_dir is None:
@@ -104,7 +104,7 @@ def main():
                 if dest_dir is None:
                     hint = re.search(r"((?:[\w.-]+/)+)" + re.escape(fn), run_txt.replace(".seed/demo/", ""))
                     if hint:
-                        dest_dir = hint.group(1).replace("/tmp/seed/%s/" % pid, "").strip("/")
+                        dest_dir = re.sub(r"/tmp/seed\d*/%s/" % pid, "", hint.group(1)).strip("/")
                 if dest_dir is None:
                     rel = os.path.relpath(dp, demo)
                     dest_dir = rel if rel != "." else (os.path.dirname(files[0]) if files else ".")
@@ -121,7 +121,7 @@ def main():
                 cmd = gos[-1]
                 cmd = cmd[cmd.index("go "):] if not cmd.startswith("go ") else cmd
                 break
-        cmd = cmd.replace("/tmp/seed/%s" % pid, wt)
+        cmd = re.sub(r"/tmp/seed\d*/%s" % pid, wt, cmd)
         if cmd:
             # the demo's own overlay only supplies the embedded UI placeholder: use ours
             cmd = re.sub(r"-overlay\s+\S+", "-overlay %s" % ov, cmd)
